@@ -104,16 +104,35 @@ func c03World(t *testing.T, r *simcore.Run) any {
 	w.startListeners(nlisten, nil)
 
 	interleaved := tp.Bool(2, 3, "interleaved")
-	filter := &recFilter{}
-	c := &client.IPClient{Log: quietLog(), InterleavedMode: interleaved, Filter: filter}
+	// 1..3 clients on the same host (the server keeps one record per host address, so they
+	// share its eight slots); with several clients the rounds are synchronised and the server's
+	// clock may be coarse, so that requests collide on their receive timestamps
+	nclients := 1
+	if tp.Bool(1, 3, "multi") {
+		nclients = 2 + tp.Intn(2, "nclients")
+	}
+	// (a coarse server clock, on which the requests of such clients collide, is not used here:
+	// it mainly re-finds the receive-timestamp reuse of known finding F08, which the store-level
+	// check C06 classifies precisely)
+	quantum := time.Duration(0)
+	eps := c03Eps + quantum
+	type c03Client struct {
+		c         *client.IPClient
+		filter    *recFilter
+		seenCalls int
+		prev      *c03Exchange
+	}
+	clients := map[string]*c03Client{}
+	for i := 0; i < nclients; i++ {
+		f := &recFilter{}
+		clients[fmt.Sprintf("driver%d", i)] = &c03Client{c: &client.IPClient{Log: quietLog(), InterleavedMode: interleaved, Filter: f}, filter: f}
+	}
 	nmeas := 5 + tp.Intn(36, "nmeas")
 	timeout := []time.Duration{200 * time.Millisecond, time.Second, 3 * time.Second}[tp.Intn(3, "timeout")]
 	stepServer := tp.Bool(1, 4, "srvsteps")
 
 	// ---- per-attempt tracking through the socket hooks
 	attempts := map[*simnet.UDPConn]*c03Attempt{}
-	seenCalls := 0
-	var prev *c03Exchange // last accepted exchange of the client
 	checked, excluded, ilAccepted, basicAfterIl := 0, 0, 0, 0
 	var samples []string
 	prevOnSend := w.net.OnSend
@@ -154,11 +173,17 @@ func c03World(t *testing.T, r *simcore.Run) any {
 		}
 		a := attempts[cn]
 		delete(attempts, cn)
-		if a == nil || len(filter.calls) == seenCalls {
+		cs := clients[simcore.Tag()] // the socket is closed by the goroutine that measured
+		if cs == nil {
+			r.Fail("harness", "c03/untagged-close", "client socket closed by an unknown goroutine %q", simcore.Tag())
+			return
+		}
+		filter := cs.filter
+		if a == nil || len(filter.calls) == cs.seenCalls {
 			return // attempt failed: nothing was reported
 		}
 		ts := filter.calls[len(filter.calls)-1]
-		seenCalls = len(filter.calls)
+		cs.seenCalls = len(filter.calls)
 		a.accepted = cn.LastRecv
 		if a.accepted == nil || a.req == nil {
 			r.Fail("C03", "accept/nothing-consumed", "the client reported an offset without having read a datagram")
@@ -194,16 +219,16 @@ func c03World(t *testing.T, r *simcore.Run) any {
 		if ilResp {
 			ilAccepted++
 			r.Probe("interleaved-accepted")
-			if prev == nil {
+			if cs.prev == nil {
 				r.Fail("C03", "interleaved/no-previous", "interleaved response accepted without a previous accepted exchange")
 				return
 			}
-			e = prev
+			e = cs.prev
 		} else if ilReq {
 			basicAfterIl++
 			r.Probe("basic-reply-to-interleaved-request")
 		}
-		prev = cur
+		cs.prev = cur
 		off := ntp.ClockOffset(ts[0], ts[1], ts[2], ts[3])
 		// ground truth of exchange e
 		T0, T3 := e.q.SentAt, e.p.ArrivedAt
@@ -243,11 +268,11 @@ func c03World(t *testing.T, r *simcore.Run) any {
 			e.q.ID, T0.Sub(r.Start()), reqArr.Sub(r.Start()), e.p.ID, e.p.SentAt.Sub(r.Start()), T3.Sub(r.Start()),
 			map[bool]string{false: "basic", true: "interleaved"}[ilResp], T1x.Sub(r.Start()), T2x.Sub(r.Start()))
 		// the four timestamps belong to exchange e
-		if d := absDur(ts[0].Sub(w.cli.Clock.At(T0))); d > c03Eps {
+		if d := absDur(ts[0].Sub(w.cli.Clock.At(T0))); d > eps {
 			r.Fail("C03", "membership/t0", "t0 differs from the transmit time of the exchange's request by %v; %s", d, desc)
 			return
 		}
-		if d := absDur(ts[3].Sub(w.cli.Clock.At(T3))); d > c03Eps {
+		if d := absDur(ts[3].Sub(w.cli.Clock.At(T3))); d > eps {
 			r.Fail("C03", "membership/t3", "t3 differs from the receive time of the exchange's response by %v; %s", d, desc)
 			return
 		}
@@ -257,11 +282,11 @@ func c03World(t *testing.T, r *simcore.Run) any {
 		if e.p.SrcConn.LateTx > 0 {
 			sfx = "+listener-after-late-kernel-tx-stamp"
 		}
-		if T1x.Before(reqArr.Add(-c03Eps)) || T1x.After(e.p.SentAt.Add(c03Eps)) {
+		if T1x.Before(reqArr.Add(-eps)) || T1x.After(e.p.SentAt.Add(eps)) {
 			r.Fail("C03", "membership/t1"+sfx, "server receive timestamp was not taken between the request's arrival and the reply's departure; %s", desc)
 			return
 		}
-		if T2x.Before(T1x.Add(-c03Eps)) || T2x.After(e.p.SentAt.Add(c03Eps)) {
+		if T2x.Before(T1x.Add(-eps)) || T2x.After(e.p.SentAt.Add(eps)) {
 			r.Fail("C03", "membership/t2"+sfx, "server transmit timestamp was not taken between its receive timestamp and the reply's departure; %s", desc)
 			return
 		}
@@ -271,9 +296,9 @@ func c03World(t *testing.T, r *simcore.Run) any {
 		theta := (sc.OffsetAt(T1x) + sc.OffsetAt(T2x)) / 2
 		half := (T3.Sub(T0) - T2x.Sub(T1x)) / 2
 		errv := absDur(off - theta)
-		if errv > half+c03Eps {
+		if errv > half+eps {
 			r.Fail("C03", "bound/half-rtt"+sfx, "reported offset %v, true offset %v: error %v exceeds half the round-trip delay %v (+%v); %s",
-				off, theta, errv, half, c03Eps, desc)
+				off, theta, errv, half, eps, desc)
 			return
 		}
 		checked++
@@ -283,43 +308,62 @@ func c03World(t *testing.T, r *simcore.Run) any {
 		}
 	}
 
-	// ---- workload
+	// ---- workload: the gaps are drawn up front so that all clients of a run share them
 	okCount, errCount := 0, 0
-	w.goSafe("driver", func() {
-		defer r.Finish()
-		for k := 0; k < nmeas && r.Violation() == nil; k++ {
-			gap := time.Duration(tp.Range(int64(10*time.Millisecond), int64(4*time.Second), "gap"))
-			if tp.Bool(1, 5, "gaplong") {
-				gap = time.Duration(tp.Range(int64(3*time.Second), int64(10*time.Second), "gap2"))
-			}
-			if r.Sleep(fmt.Sprintf("gap:%d", k), w.cli.Node, gap).Killed {
-				return
-			}
-			if stepServer && tp.Bool(1, 4, "stepnow") {
-				by := time.Duration(tp.Range(0, int64(2*time.Second), "stepby")) - time.Second
-				w.srv.Clock.StepBy(by)
-				r.Fault("server-clock-step")
-			}
-			before := len(filter.calls)
-			_, off, err := w.measureIP(c, timeout)
-			if err != nil {
-				errCount++
-				r.Probe("measurement-failed")
-			} else {
-				okCount++
-				if len(filter.calls) == before {
-					r.Fail("C03", "report/without-evaluation", "measurement %d reported %v without evaluating a response", k, off)
-					return
-				}
-				last := filter.calls[len(filter.calls)-1]
-				if want := ntp.ClockOffset(last[0], last[1], last[2], last[3]); off != want {
-					r.Fail("C03", "report/value", "measurement %d reported %v, last evaluated exchange gives %v", k, off, want)
-					return
-				}
-			}
-			r.Log("meas %d err=%v", k, err != nil)
+	gaps := make([]time.Duration, nmeas)
+	steps := make([]time.Duration, nmeas)
+	for k := range gaps {
+		gaps[k] = time.Duration(tp.Range(int64(10*time.Millisecond), int64(4*time.Second), "gap"))
+		if tp.Bool(1, 5, "gaplong") {
+			gaps[k] = time.Duration(tp.Range(int64(3*time.Second), int64(10*time.Second), "gap2"))
 		}
-	})
+		if stepServer && tp.Bool(1, 4, "stepnow") {
+			steps[k] = time.Duration(tp.Range(0, int64(2*time.Second), "stepby")) - time.Second
+			if steps[k] == 0 {
+				steps[k] = 1
+			}
+		}
+	}
+	finished := 0
+	for tag, cs := range clients {
+		tag, cs := tag, cs
+		w.goSafe(tag, func() {
+			defer func() {
+				finished++
+				if finished == nclients {
+					r.Finish()
+				}
+			}()
+			for k := 0; k < nmeas && r.Violation() == nil; k++ {
+				if r.Sleep(fmt.Sprintf("gap:%s:%d", tag, k), w.cli.Node, gaps[k]).Killed {
+					return
+				}
+				if tag == "driver0" && steps[k] != 0 {
+					w.srv.Clock.StepBy(steps[k])
+					r.Fault("server-clock-step")
+				}
+				filter := cs.filter
+				before := len(filter.calls)
+				_, off, err := w.measureIP(cs.c, timeout)
+				if err != nil {
+					errCount++
+					r.Probe("measurement-failed")
+				} else {
+					okCount++
+					if len(filter.calls) == before {
+						r.Fail("C03", "report/without-evaluation", "measurement %d reported %v without evaluating a response", k, off)
+						return
+					}
+					last := filter.calls[len(filter.calls)-1]
+					if want := ntp.ClockOffset(last[0], last[1], last[2], last[3]); off != want {
+						r.Fail("C03", "report/value", "measurement %d reported %v, last evaluated exchange gives %v", k, off, want)
+						return
+					}
+				}
+				r.Log("meas %s %d err=%v", tag, k, err != nil)
+			}
+		})
+	}
 	reason := r.Loop(3_000_000, 0)
 	r.SetVT()
 	r.Drain()
@@ -330,7 +374,7 @@ func c03World(t *testing.T, r *simcore.Run) any {
 	r.Count("measurements-failed", int64(errCount))
 	r.Count("exchanges-checked", int64(checked))
 	return map[string]any{"server_offset": srvOff.String(), "skew_ppb": skew, "near_era_rollover": nearEra, "listeners": nlisten,
-		"interleaved_mode": interleaved, "measurements": nmeas, "ok": okCount, "failed": errCount, "checked": checked,
+		"interleaved_mode": interleaved, "clients": nclients, "server_clock_quantum": quantum.String(), "measurements": nmeas, "ok": okCount, "failed": errCount, "checked": checked,
 		"interleaved_accepted": ilAccepted, "excluded_step": excluded, "reuse_ports": w.net.ReusePorts,
 		"plan": fmt.Sprintf("%+v", *plan), "examples": samples}
 }
